@@ -141,7 +141,28 @@ def tools(N):
     T["reduce(table)"] = (1, 1, lambda tr: a.reduce(lambda acc, x: x if x.key >= acc.key else acc, LazyTable(tr, N)))
     T["sum(table)"] = (1, 0, lambda tr: a.sum(LazyTable(tr, N)))
     T["any_iter"] = (1, 0, lambda tr: drain(a.any_iter(LazySrc(tr, N))))
+    # a lazy stream of awaitables, each carrying one tracked item as its result
+    T["await_each"] = (1, 0, lambda tr: drain(a.await_each(_lazy_awaitables(tr, N))))
     return T
+
+
+def _lazy_awaitables(tr, N):
+    class Carrier:
+        """an awaitable that owns its result (like a finished Future)"""
+
+        def __init__(self, item):
+            self.item = item
+
+        def __await__(self):
+            return self.item
+            yield
+
+    def gen():
+        for i in range(1, N + 1):
+            tr.samples.append(tr.alive)
+            yield Carrier(tr.new(i, i % 7 + 1))
+        tr.samples.append(tr.alive)
+    return gen()
 
 
 async def _groupby(tr, N):
